@@ -652,12 +652,16 @@ def _export(chk: Check, cfg_text: str, label: str) -> CGraph:
     other = []
     p = subprocess.Popen(cmd, cwd=common.SPECS, env=env, stdout=subprocess.PIPE, stderr=subprocess.STDOUT, text=True,
                          errors="replace")
-    for line in p.stdout:
-        if line.startswith('"{'):
-            g.feed(line)
-        else:
-            other.append(line)
-    rc = p.wait()
+    try:
+        for line in p.stdout:
+            if line.startswith('"{'):
+                g.feed(line)
+            else:
+                other.append(line)
+        rc = p.wait()
+    finally:
+        if p.poll() is None:
+            p.kill()
     res = common.TlcResult(" ".join(cmd), "".join(other), rc, time.time() - t0)
     if not res.ok:
         raise common.MachineryError("SceneGraph_MBT export failed:\n" + res.out[-2000:])
@@ -1031,6 +1035,15 @@ def _b2(chk: Check, U, n_walks, length, label, shards=0):
             chk.nontrivial(("walk", label, i))
     chk.cov["b2_multi_block_messages"] = chk.cov.get("b2_multi_block_messages", 0) + sum(
         1 for t in traces for j, e in enumerate(t) if "obs" in e and j and "obs" not in t[j - 1])
+    by = chk.cov.setdefault("b2_events_by_action", {})
+    for t in traces:
+        for e in t:
+            k = e["ev"] + ":" + e.get("kind", e.get("ty", ""))
+            by[k] = by.get(k, 0) + 1
+    for k in ("Announce:full", "Announce:compressed", "Announce:cachedHit", "Touch:terse", "Touch:cachedSame",
+              "Touch:cachedMiss", "Props:", "Kill:", "Track:", "Teardown:", "Request:UPDATE", "Request:PROPERTIES"):
+        if not by.get(k):
+            raise common.MachineryError("B2 %s: the random histories contain no %s event" % (label, k))
     chk.sample({"binding": "B2 trace (first events)", "events": common._clip(traces[0][:3])})
 
 
